@@ -101,6 +101,9 @@ class Injector:
             kind = self.plan.get(str(idx))
         if kind:
             self.fired.append((idx, label, kind))
+            if kind == "interrupt":
+                # an interruption that is not an Exception (Ctrl-C, sys.exit, task cancellation)
+                raise KeyboardInterrupt(f"injected interrupt at {label}")
             if kind == "kill":
                 # crash of the process at this point: no exception handler, no finaliser runs
                 import os
